@@ -55,6 +55,8 @@ def jobs(tier, seed):
     pairs56 = [(a, b) for i, a in enumerate(allc) for b in allc[:i]]
     for i in range(0, len(pairs56), 5):
         add('two-targets-5x6-%02d' % (i // 5), shape=[5, 6], grid='asc' if (i // 5) % 2 else 'desc-nonsquare', exact=False, pairs=[[list(a), list(b)] for a, b in pairs56[i:i + 5]])
+    # dimension names other than y / x (the x= / y= arguments must be honoured)
+    add('euclid-2x3-lat-lon-dims', shape=[2, 3], grid='desc-nonsquare', dims=['lat', 'lon'], maxd=1.1)
     add('single-row-1x4', shape=[1, 4])
     add('single-col-4x1', shape=[4, 1])
     if tier != 'quick':
@@ -118,7 +120,8 @@ def body(ctx, job):
 
 
 def _run(ctx, job, data, ys, xs, ysl, xsl, g, h, w):
-    agg = raster(data, ys=ys, xs=xs, name='r', attrs={'res': (abs(g['dx']), abs(g['dy']))})
+    dn = tuple(job.get('dims', ('y', 'x')))
+    agg = raster(data, dims=dn, ys=ys, xs=xs, name='r', attrs={'res': (abs(g['dx']), abs(g['dy']))})
     maxd = job['maxd']
     metric = job['metric']
     kw = dict(distance_metric=metric)
@@ -132,9 +135,9 @@ def _run(ctx, job, data, ys, xs, ysl, xsl, g, h, w):
         else:
             tv = ctx.real('target_value')
         kw['target_values'] = [tv]
-    prox = vals(ctx.call('proximity:proximity', agg, 'x', 'y', **kw))
-    alloc = vals(ctx.call('proximity:allocation', agg, 'x', 'y', **kw))
-    direc = vals(ctx.call('proximity:direction', agg, 'x', 'y', **kw))
+    prox = vals(ctx.call('proximity:proximity', agg, dn[1], dn[0], **kw))
+    alloc = vals(ctx.call('proximity:allocation', agg, dn[1], dn[0], **kw))
+    direc = vals(ctx.call('proximity:direction', agg, dn[1], dn[0], **kw))
     ctx.observe('proximity', prox)
     ctx.observe('direction', direc)
     cs = cells((h, w))
